@@ -89,7 +89,7 @@ Ts4p == [ts_type |-> 7, proto |-> 17, sport |-> 500, eport |-> 500, saddr |-> V4
 Ts6 == [ts_type |-> 8, proto |-> 0, sport |-> 0, eport |-> 65535, saddr |-> V6a, eaddr |-> V6b]
 N16 == [i \in 1..16 |-> i]   N32 == [i \in 1..32 |-> 200 + (i % 50)]
 N255 == [i \in 1..255 |-> i % 251]   N256 == [i \in 1..256 |-> (i * 7) % 256]          \* 3.9: nonce data of 16 .. 256 octets - both ends of the range
-Payloads ==
+CorePayloads ==
   { P(33, FALSE, [proposals |-> <<p>>]) : p \in Props } \cup
   { P(33, FALSE, [proposals |-> <<p, q>>]) : p \in {x \in Props : x.proto = 3 /\ x.spi = <<1, 2, 3, 4>>}, q \in {x \in Props : x.proto = 2 /\ x.spi = <<1, 2, 3, 4>> /\ Len(x.transforms) = 2} } \cup
   \* the same suite offered under two proposal numbers / SPIs, and once more after a different one (position decides "last", not content)
@@ -112,6 +112,19 @@ Payloads ==
     P(37, TRUE, [data |-> <<4, 1, 2>>]), P(38, TRUE, [data |-> <<4>>]), P(38, FALSE, [data |-> <<4>>]), P(47, TRUE, [data |-> <<1, 0, 0, 0>>]), P(48, TRUE, [data |-> <<1, 2, 0, 4>>]),
     P(48, FALSE, [data |-> <<>>]) }
 
+\* the fields of a payload vary INDEPENDENTLY of each other (3.10: Protocol ID, SPI Size and SPI of a Notify; 3.11: Protocol ID, SPI size and number of SPIs
+\* of a Delete; 3.4 / 3.5 / 3.8: every group / identification type / method number with every length of data; 3.13.1: selector type, protocol, ports) -
+\* also in the combinations that no implementation sends itself (a Notify about no protocol that carries an SPI, a Delete for the IKE_SA with SPIs)
+FieldProducts ==
+  { P(41, FALSE, [proto |-> pr, spi |-> sp, ntype |-> nt, data |-> d]) : pr \in {0, 1, 2, 3}, sp \in Spis, nt \in {16391, 16393, 17, 44}, d \in {<<>>, <<0, 19>>} } \cup
+  { P(42, FALSE, [proto |-> pr, spis |-> ss]) : pr \in {1, 2, 3}, ss \in { <<>>, << <<1, 2, 3, 4>> >>, << A8 >>, << <<1, 2, 3, 4>>, <<5, 6, 7, 8>> >>, << A8, B8 >> } } \cup
+  { P(34, FALSE, [group |-> g, data |-> d]) : g \in {1, 2, 5, 14, 19, 21, 31}, d \in {<<>>, <<7>>, N32} } \cup
+  { P(t, FALSE, [id_type |-> it, data |-> d]) : t \in {35, 36}, it \in {1, 2, 3, 5, 9, 11}, d \in {<<>>, <<192, 168, 0, 1>>, <<98, 111, 98>>} } \cup
+  { P(39, FALSE, [method |-> m, data |-> d]) : m \in {1, 2, 3}, d \in {<<>>, <<7>>, N32} } \cup
+  { P(44, FALSE, [ts |-> << [ts_type |-> 7, proto |-> pr, sport |-> pp[1], eport |-> pp[2], saddr |-> V4a, eaddr |-> ea] >>]) :
+      pr \in {0, 1, 6, 255}, pp \in {<<0, 65535>>, <<500, 500>>, <<65535, 0>>, <<1, 2>>}, ea \in {V4a, V4b} }
+Payloads == CorePayloads \cup FieldProducts
+
 Headers ==
   { [spi_i |-> si, spi_r |-> sr, major |-> v[1], minor |-> v[2], xchg |-> x, response |-> f[1], version |-> f[2], initiator |-> f[3], mid |-> m] :
       si \in {A8}, sr \in {Z8, B8}, v \in {<<2, 0>>, <<2, 1>>, <<3, 0>>, <<1, 15>>}, x \in {34, 35, 36, 37, 0, 255},
@@ -130,7 +143,7 @@ RoundTrip(ps) ==
 HeaderLen(h, ps) == LET m == EncMessage(h, ps) IN Len(m) = Get16(m, 27) /\ m[25] = 0 /\ m[26] = 0 /\ Len(m) >= 28
 
 Singles == { <<p>> : p \in Payloads }
-Pairs == { <<p, q>> : p \in Payloads, q \in {x \in Payloads : x.t # 33 \/ (Len(x.proposals) = 1 /\ x.proposals[1].spi = <<>>)} }
+Pairs == { <<p, q>> : p \in CorePayloads, q \in {x \in CorePayloads : x.t # 33 \/ (Len(x.proposals) = 1 /\ x.proposals[1].spi = <<>>)} }
 ASSUME Mode \in {"singles", "pairs"} => \A ps \in Singles \cup {<<>>} : RoundTrip(ps) /\ HeaderLen(H0, ps)
 ASSUME Mode = "pairs" => \A ps \in Pairs : RoundTrip(ps)
 ASSUME Mode = "singles" => \A h \in Headers : HeaderLen(h, <<>>)
@@ -159,8 +172,8 @@ SetAt(b, i, x) == [b EXCEPT ![i] = x]
 Set16(b, i, n) == [b EXCEPT ![i] = (n \div 256) % 256, ![i + 1] = n % 256]
 LenValues(exact) == {0, 1, 2, 3, 4, 5, exact, exact + 1, 65535} \cup (IF exact > 0 THEN {exact - 1} ELSE {})
 NextValues(same) == {0, same, 33, 34, 40, 41, 43, 46, 99, 255}
-BaseLists == { <<p>> : p \in {x \in Payloads : x.t \in {33, 34, 40, 41, 42, 44, 99}} } \cup
-             { <<p, q>> : p \in {x \in Payloads : x.t \in {40, 99} /\ ~x.critical}, q \in {x \in Payloads : x.t \in {41, 43}} }
+BaseLists == { <<p>> : p \in {x \in CorePayloads : x.t \in {33, 34, 40, 41, 42, 44, 99}} } \cup
+             { <<p, q>> : p \in {x \in CorePayloads : x.t \in {40, 99} /\ ~x.critical}, q \in {x \in CorePayloads : x.t \in {41, 43}} }
 Mutations ==
   UNION { LET b == EncChain(ps, 0)  offs == HdrOffsets(b, 1, FirstType(ps, 0)) IN
             UNION { { [base |-> ps, kind |-> "len", at |-> offs[k], b |-> Set16(b, offs[k] + 2, v)] : v \in LenValues(Get16(b, offs[k] + 2)) }
